@@ -335,6 +335,14 @@ struct ConfigWorld : World {
 					  PathV sl = walk(lp); if (sl.size() != 1 || sl[0] != last) fail("walk-differs", "after mpt_path_last the length-prefixed form of '%s' iterates as %zu element(s), expected its last one alone", short_path(rel).c_str(), sl.size()); }
 					if (rel.size() >= 2) { mpt::path l2(bp); int l2l; { Sut s; mpt_path_next(&l2); l2l = mpt_path_last(&l2); } const std::string &last = rel.back();
 					  if (l2l != (int) last.size() || std::string(l2.base + l2.off, (size_t) (l2l < 0 ? 0 : l2l)) != last) fail("walk-differs", "mpt_path_last after one mpt_path_next on the length-prefixed form of '%s' gives %d bytes, the last element has %zu", short_path(rel).c_str(), l2l, last.size()); }
+					{ // walked off completely, then extended again: the new element is the next (and only) one
+						mpt::path re(bp); int g6 = 0; while (true) { int l; { Sut s; l = mpt_path_next(&re); } if (l < 0 || ++g6 > 16) break; }
+						bool ok6 = true; for (char c : std::string("zz")) { int r; { Sut s; r = mpt_path_addchar(&re, (unsigned char) c); if (r >= 0) r = mpt_path_valid(&re); } if (r < 0) ok6 = false; }
+						int ra; { Sut s; ra = mpt_path_add(&re, 2); }
+						PathV s6 = walk(re);
+						if (!ok6 || ra < 0 || s6 != PathV{"zz"}) fail("walk-differs", "length-prefixed form of '%s' walked off and extended by one element of 2 bytes iterates as %zu element(s)%s", short_path(rel).c_str(), s6.size(), s6.size() == 1 ? (" of " + std::to_string(s6[0].size()) + " bytes").c_str() : "");
+						st.hit("probe:binary_path_extended_after_walk");
+					}
 					if (rel.size() >= 3) {
 						int r1, r2; { Sut s; r1 = mpt_path_next(&bp); r2 = mpt_path_del(&bp); }
 						PathV mid(rel.begin() + 1, rel.end() - 1), s5 = walk(bp);
